@@ -288,12 +288,24 @@ def judge_connect(resolve_ok, create_ok, connect_ok, v6, secure=False):
                     complaint = "the socket of a failed connect attempt (address %d) was not closed" % i
             if usable and sock is not fake.socks[usable[0]]:
                 complaint = "returned socket is not the first one that connected"
+    # what happened, in the model's terms: index of the socket in use, operations in order (socket() failures, connects), closed sockets
+    used = [i for i, sk in enumerate(fake.socks) if sk is not None and sk is sock]
+    ops = []
+    names = {fake.name(i): i for i in range(naddr)}
+    for e in fake.log:
+        if e[0] == "create-fail":
+            ops.append([0, e[1]])
+        elif e[0] == "connect":
+            ops.append([1, names.get(e[1], -1)])
+    closed = sorted(i for i, sk in enumerate(fake.socks) if sk is not None and sk.closed)
+    judge_connect.last = (res, used[:1], ops, closed)
     return complaint, exp, res, fake.log
 
 
-def connect_each(rep, tier):
+def connect_each(rep, tier, model=None):
     import itertools
     n_cases = 0
+    seen = []
     for naddr in range(0, 5 if tier == "quick" else 6):
         for resolve_ok in (True, False):
             for create_ok in itertools.product((True, False), repeat=naddr):
@@ -301,12 +313,30 @@ def connect_each(rep, tier):
                     for connect_ok in itertools.product((True, False), repeat=naddr):
                       for secure in (False, True):
                         complaint, exp, res, log = judge_connect(resolve_ok, create_ok, connect_ok, v6, secure)
+                        seen.append(((resolve_ok, create_ok, connect_ok, v6, secure), judge_connect.last))
                         n_cases += 1
                         rep.add_case(("connect_each", naddr, resolve_ok, create_ok, connect_ok, v6, secure))
                         if complaint:
                             rep.violation("_connect_sock%s: " % (" (TLS)" if secure else "") + complaint, scenario=dict(kind="connect_each", resolve_ok=resolve_ok, create_ok=list(create_ok), connect_ok=list(connect_ok), v6=v6, secure=secure),
                                           expected=exp, actual=dict(result=res, log=log), family="C09:connect-each-address")
-    rep.families.append(dict(name="C09:connect-each-address", cases=n_cases, rule="real WebsocketSession._connect_sock against a fake socket module: all outcome patterns (resolver ok/fail, per-address socket()/connect() ok/fail, IPv4-only or alternating IPv6/IPv4 answers, plain and with ssl=True) for up to %d addresses" % (4 if tier == "quick" else 5), exhaustive=True))
+    dis = 0
+    first = None
+    if model is not None:
+        reqs = [[43, 1 if k[0] else 0, [[1 if a else 0, 1 if b else 0] for a, b in zip(k[1], k[2])]] for k, _ in seen]
+        mres = model.run(reqs)
+        rep.watch_extraction(model, reqs[:40])
+        for (k, (res, used, ops, closed)), m in zip(seen, mres):
+            if res.startswith("exc"):
+                continue                  # judged by the oracle above
+            m_used = [x for x in m[0]]
+            m_ops = [[o[0], o[1]] for o in m[1] if o[0] in (0, 1)]
+            m_closed = sorted(o[1] for o in m[1] if o[0] == 2)
+            if m_used != used or m_ops != ops or m_closed != closed:
+                dis += 1
+                first = first or (k, (used, ops, closed), (m_used, m_ops, m_closed))
+        if dis and not rep.violations:
+            rep.broken("correspondence C09:connect-each-address: the real _connect_sock and Model.Connect.connect_sock differ on %d outcome patterns; first (pattern, implementation, model): %r" % (dis, first))
+    rep.families.append(dict(name="C09:connect-each-address", cases=n_cases, disagreements=dis, rule="real WebsocketSession._connect_sock against a fake socket module: all outcome patterns (resolver ok/fail, per-address socket()/connect() ok/fail, IPv4-only or alternating IPv6/IPv4 answers, plain and with ssl=True) for up to %d addresses" % (4 if tier == "quick" else 5), exhaustive=True))
     rep.exhaustive["connect outcome patterns"] = True
 
 
@@ -351,7 +381,7 @@ def run(rep, info, model, tier, seed):
         rep.count("fault", sc["_fault"].split("-")[0] + ("-" + sc["_fault"].split("-")[-1] if "-" in sc["_fault"] else ""))
     fam.run_family(rep, model, "C09:fault-at-every-operation", scs, oracle, project=lambda t: t,
                    rule="for each base scenario: connect failure; sendall k=0..5 failing with OSError / arbitrary exception; the stream cut at (nearly) every byte offset followed by EOF / ECONNRESET / RuntimeError; selector wait raising at each step; oracle: nothing escapes next(), no hang, ConnectFail/Disconnected last, graceful=False unless a closing handshake had started, socket closed, application calls raise only WebSocketError subclasses")
-    connect_each(rep, tier)
+    connect_each(rep, tier, model)
     real_selector_family(rep)
     long_outage(rep, rnd, tier)
     if not proof_ok and not rep.violations:
